@@ -25,6 +25,9 @@ type Config struct {
 	Stubs          map[string]string // real function -> model function (same package)
 	FreezeProperty string
 	SymPkg         string // import path of the harness API package
+	// MapOrderFuncs: functions in which `range` over a map of 2..3 entries
+	// explores every iteration order (Go leaves the order unspecified).
+	MapOrderFuncs map[string]bool
 }
 
 const symPkgSuffix = "/zz_verif/sym"
